@@ -3,6 +3,7 @@ package livechk
 import (
 	"fmt"
 	"math/rand"
+	"path/filepath"
 	"strings"
 	"time"
 	"unicode"
@@ -229,6 +230,7 @@ func sessionC09(r *vk.Run, rng *rand.Rand, wkr, idx int) {
 		fzfArgs = append(fzfArgs, "--info=inline")
 		promptLines = 1
 	}
+	initQuery := ""
 	track := rng.Intn(4) == 0
 	if track {
 		fzfArgs = append(fzfArgs, "--track")
@@ -239,6 +241,10 @@ func sessionC09(r *vk.Run, rng *rand.Rand, wkr, idx int) {
 		// selection must work as ever, over the whole window
 		fzfArgs = append(fzfArgs, "--no-input")
 		promptLines = 0
+		if rng.Intn(2) == 0 {
+			fzfArgs = append(fzfArgs, "--query", "a1")
+			initQuery = "a1"
+		}
 	}
 	maxItems := rows - promptLines
 	if maxItems < 0 {
@@ -258,7 +264,7 @@ func sessionC09(r *vk.Run, rng *rand.Rand, wkr, idx int) {
 		r.Inconclusive("no initial quiescence: " + s.LastWait)
 		return
 	}
-	ed := &editor{}
+	ed := &editor{in: []rune(initQuery), cx: len([]rune(initQuery))}
 	sel := &selModel{limit: limit}
 	cy := st.Position
 	L := st.MatchCount
@@ -286,6 +292,11 @@ func sessionC09(r *vk.Run, rng *rand.Rand, wkr, idx int) {
 		switch c := rng.Intn(10); {
 		case c < 4 && !noInput:
 			act = editActs[rng.Intn(len(editActs))]
+		case c < 2 && noInput:
+			// with the input section hidden the query cannot be edited: every editing action leaves it as it is
+			act = editActs[rng.Intn(len(editActs))]
+		case c < 8 && c >= 7 && rng.Intn(3) == 0:
+			act = "reload"
 		case c < 7:
 			act = navActs[rng.Intn(len(navActs))]
 		default:
@@ -302,6 +313,9 @@ func sessionC09(r *vk.Run, rng *rand.Rand, wkr, idx int) {
 		case "pos":
 			arg = fmt.Sprint(rng.Intn(2*L+7) - L - 3)
 			post = "pos(" + arg + ")"
+		case "reload":
+			// the same lines again: selections are dropped, everything else goes on as before
+			post = "reload(cat '" + filepath.Join(s.Dir, "input") + "')"
 		}
 		// the current item before the action (needed for selection actions)
 		curIdx := -1
@@ -312,8 +326,21 @@ func sessionC09(r *vk.Run, rng *rand.Rand, wkr, idx int) {
 			continue // behaviour at the limit is not documented
 		}
 		prevQuery := string(ed.in)
-		isEdit := ed.apply(act, arg)
+		isEdit := false
+		if noInput {
+			for _, e := range editActs {
+				if e == act {
+					isEdit = true // a no-op here
+				}
+			}
+		} else {
+			isEdit = ed.apply(act, arg)
+		}
 		queryChanged := string(ed.in) != prevQuery
+		if act == "reload" {
+			sel.order = nil
+			queryChanged = true // wait for the new list and re-anchor the cursor
+		}
 		code, err := s.Post(post)
 		hist = append(hist, post)
 		if err != nil || code != 200 {
@@ -357,7 +384,7 @@ func sessionC09(r *vk.Run, rng *rand.Rand, wkr, idx int) {
 			}
 			L = st.MatchCount
 			cy = st.Position // re-anchor
-			if track && curIdx >= 0 && st.Current != nil && st.Current.Index != curIdx {
+			if track && act != "reload" && curIdx >= 0 && st.Current != nil && st.Current.Index != curIdx {
 				// --track: the cursor follows the current item when the list is updated, if it is still listed
 				for _, m := range st.Matches {
 					if m.Index == curIdx {
